@@ -1,14 +1,121 @@
 package main
 
 import (
+	"fmt"
+	"sync"
+
+	"github.com/DrmagicE/gmqtt/pkg/packets"
 	"github.com/DrmagicE/gmqtt/server"
+
+	"verifharness/internal/drv"
+	"verifharness/internal/mqttcli"
+	"verifharness/internal/wire"
 )
 
-// brokerOptions: plugins / hooks selected by the `new` line (filled in by the per-property files).
+// Extension points: other files of this package register in init().
+//   optionHooks: extra server options (plugins, hooks) derived from the `new` line's key=value map
+//   extraOps:    additional op keywords
+//   apiOps:      additional `api <name> …` sub-commands
+var (
+	optionHooks []func(d *brokerDrv, m map[string]string) []server.Options
+	extraOps    = map[string]func(d *brokerDrv, pos []string, m map[string]string) string{}
+	apiOps      = map[string]func(d *brokerDrv, pos []string, m map[string]string) string{}
+)
+
+func init() { extraOps["race"] = raceOp }
+
 func brokerOptions(d *brokerDrv, m map[string]string) []server.Options {
-	return nil
+	var opts []server.Options
+	for _, h := range optionHooks {
+		opts = append(opts, h(d, m)...)
+	}
+	return opts
 }
 
-func apiExtra(d *brokerDrv, pos []string, m map[string]string) string { return "bad-op" }
+func apiExtra(d *brokerDrv, pos []string, m map[string]string) string {
+	if len(pos) > 0 {
+		if f, ok := apiOps[pos[0]]; ok {
+			return f(d, pos, m)
+		}
+	}
+	return "bad-op"
+}
 
-func extraOp(d *brokerDrv, op string, pos []string, m map[string]string) string { return "bad-op" }
+func extraOp(d *brokerDrv, op string, pos []string, m map[string]string) string {
+	if f, ok := extraOps[op]; ok {
+		return f(d, pos, m)
+	}
+	return "bad-op"
+}
+
+// raceOp: `race <n> <cid> v= cs= se=` — n connections send CONNECT with ONE client id at the same moment.
+// Afterwards every connection that is still open is pinged. Output: alive=<answering connections> online=<len(srv.clients)>.
+func raceOp(d *brokerDrv, pos []string, m map[string]string) string {
+	if len(pos) < 2 {
+		return "bad-op"
+	}
+	n := drv.Atoi(pos[0])
+	cid := pos[1]
+	v := byte(geti(m, "v", 5))
+	var conns []*wire.Conn
+	for i := 0; i < n; i++ {
+		c, err := d.b.Dial(fmt.Sprintf("r%d_%d", d.opIndex, i))
+		if err != nil {
+			return "dial-failed"
+		}
+		c.ClientID = cid
+		c.Version = v
+		c.StartReader()
+		conns = append(conns, c)
+	}
+	if _, ok := d.sessions[cid]; !ok {
+		d.sessions[cid] = &session{}
+	}
+	start := make(chan struct{})
+	var wg sync.WaitGroup
+	for _, c := range conns {
+		wg.Add(1)
+		go func(c *wire.Conn) {
+			defer wg.Done()
+			cp := &packets.Connect{Version: v, ProtocolLevel: v, ProtocolName: []byte("MQTT"), CleanStart: geti(m, "cs", 0) == 1, ClientID: []byte(cid)}
+			if v == 5 {
+				se := uint32(geti(m, "se", 300))
+				cp.Properties = &packets.Properties{SessionExpiryInterval: &se}
+			}
+			<-start
+			_ = c.Send(cp)
+		}(c)
+	}
+	close(start)
+	wg.Wait()
+	wire.Quiesce(d.qTimeout)
+	for _, c := range conns {
+		c.Take()
+	}
+	for _, c := range conns {
+		if !c.EOF() {
+			_ = c.Send(&packets.Pingreq{})
+		}
+	}
+	wire.Quiesce(d.qTimeout)
+	alive := 0
+	for _, c := range conns {
+		ps, _ := c.Take()
+		for _, p := range ps {
+			if p.Type == mqttcli.PINGRESP {
+				alive++
+			}
+		}
+	}
+	on, _, _, _, _ := d.b.Srv.VerifCounts()
+	// leave no racing connection behind
+	for _, c := range conns {
+		c.Close()
+	}
+	wire.Quiesce(d.qTimeout)
+	for _, c := range conns {
+		c.Take()
+		delete(d.b.Conns, c.Name)
+	}
+	return fmt.Sprintf("alive=%d online=%d", alive, on)
+}
